@@ -62,6 +62,18 @@ pub fn gen_plan(seed: u64, mode: TwinMode, thorough: bool) -> TwinPlan {
         foreign_lock_pct: 0,
     };
     let mut ops = seq::gen_ops(&mut r, &p, n_clients, &cfg, page_size.unwrap_or(4096));
+    // rarely: one upload at (or just below) the 100 MiB size limit, so that the backends' own value
+    // limits are compared too
+    if r.chance(1, 120) {
+        let len = crate::http::MAX_BODY as u32 - *r.pick(&[0u32, 1, 40, 200]);
+        let c = r.below(n_clients as u64) as u8;
+        let at = r.below(ops.len() as u64 + 1) as usize;
+        if r.chance(1, 2) {
+            ops.insert(at, Op::AddVersion { c, parent: crate::ops::IdArg::Latest, pay: crate::ops::Pay { class: 0, len, tag: 6_000_001 }, ch: Chunking::Fixed(1 << 22) });
+        } else {
+            ops.insert(at, Op::AddSnapshot { c, v: crate::ops::IdArg::Latest, pay: crate::ops::Pay { class: 1, len, tag: 6_000_002 }, ch: Chunking::Fixed(1 << 22) });
+        }
+    }
     if mode == TwinMode::Backends {
         // extra restart points
         let extra = r.range(0, 3);
